@@ -771,7 +771,7 @@ class Gen:
         return out
 
     # ---- whole document
-    def document(self, n_objects=None, n_bindings=None, with_handlers=True, type_name="Doc"):
+    def document(self, n_objects=None, n_bindings=None, with_handlers=True, type_name="Doc", handler_p=0.45, max_handlers=2):
         r = self.r
         n = n_objects or r.randint(3, 7)
         root_cls = r.weighted([(4, "QWidget"), (3, "QDialog"), (3, "SimPanel")])
@@ -846,8 +846,8 @@ class Gen:
             count += 1
         if with_handlers:
             for o in self.objs + ([root] if root_cls in ("SimPanel", "QDialog") else []):
-                if r.chance(0.45):
-                    for _ in range(r.randint(1, 2)):
+                if r.chance(handler_p):
+                    for _ in range(r.randint(1, max_handlers)):
                         h = self.gen_handler(o, o["cls"])
                         if h:
                             o["handlers"].append(h)
@@ -858,3 +858,180 @@ class Gen:
                "pins": sorted([list(p) for p in self.pins])}
         doc["qml"] = render_doc(doc)
         return doc
+
+
+# ---------------------------------------------------------------- documents built for C16
+
+def _mk_doc(type_name, root_cls, objs, externals=None, pins=None):
+    doc = {"type_name": type_name, "root": {"cls": root_cls, "id": "root", "consts": [], "bindings": [], "handlers": []},
+           "objects": objs, "externals": externals or [{"name": "m1", "cls": "SimModel"}, {"name": "x1", "cls": "SimWidget"}],
+           "pins": sorted([list(p) for p in (pins or [])])}
+    doc["qml"] = render_doc(doc)
+    return doc
+
+
+def _obj(oid, cls="SimWidget"):
+    return {"cls": cls, "id": oid, "consts": [], "bindings": [], "handlers": []}
+
+
+def _b(target, expr, layer=2, sub=None):
+    return {"target": target, "sub": sub, "layer": layer, "body": expr if isinstance(expr, dict) else {"kind": "expr", "expr": expr}}
+
+
+def doc_cascade(rng, type_name="Doc"):
+    """33-70 bindings in a loop-free cascade of depth up to 40: w[k].mid1 reads w[k-1].mid1, so that bindings
+    with indices on both sides of every 32-bit word boundary are on the stack together."""
+    n = rng.randint(20, 40)
+    objs = []
+    for k in range(n):
+        o = _obj("w%02d" % k, rng.choice(["SimWidget", "SimWidget", "SimPanel"]))
+        if k == 0:
+            o["bindings"].append(_b("mid1", ["bin", "int", "+", ["this_prop", "intVal"], ["lit", "int", 1]], 1))
+        else:
+            prev = ["obj", "w%02d" % (k - 1)]
+            e = ["bin", "int", "+", ["prop", prev, "mid1"], ["lit", "int", 1]]
+            if rng.chance(0.3):
+                e = ["tern", ["prop", ["obj", "w00"], "flag"], e, ["prop", prev, "mid1"]]
+            o["bindings"].append(_b("mid1", e, 1))
+        if rng.chance(0.6):
+            o["bindings"].append(_b("out1", ["bin", "int", "*", ["prop", ["obj", "w%02d" % rng.randint(0, k)], "mid1"], ["lit", "int", 2]]))
+        if rng.chance(0.3):
+            o["bindings"].append(_b("outText", ["arg", ["lit", "string", "n=%1"], ["prop", ["obj", "w%02d" % rng.randint(0, k)], "mid1"]]))
+        if rng.chance(0.25):
+            o["bindings"].append(_b("midText", ["bin", "string", "+", ["prop", ["obj", "w00"], "text"], ["lit", "string", "-%d" % k]], 1))
+        if rng.chance(0.2):
+            o["bindings"].append(_b("outFlag", ["bin", "int", ">", ["prop", ["obj", "w%02d" % k], "mid1"], ["lit", "int", k // 2]]))
+        objs.append(o)
+    return _mk_doc(type_name, "QWidget", objs)
+
+
+def doc_observers(rng, type_name="Doc"):
+    """functions with 2-5 property observers, in one block and across blocks"""
+    n = rng.randint(3, 5)
+    objs = [_obj("w%d" % (k + 1)) for k in range(n)]
+    pins = set()
+    for o in objs:
+        k = rng.randint(2, 5)
+        terms = []
+        for j in range(k):
+            base = "w%d" % rng.randint(1, n)
+            pins.add((base, "peer"))
+            terms.append(["prop", ["prop", ["obj", base], "peer"], "intVal"])
+        e = terms[0]
+        for t in terms[1:]:
+            e = ["bin", "int", "+", e, t]
+        o["bindings"].append(_b("out1", e))
+        if rng.chance(0.7):
+            a, b = "w%d" % rng.randint(1, n), "w%d" % rng.randint(1, n)
+            pins.update([(a, "peer"), (b, "peer"), (a, "model"), ("*", "peer")])
+            # observers in several blocks of one function; chain of two hops in one of them
+            blk = {"kind": "block", "stmts": [
+                ["let", "p", ["prop", ["obj", a], "peer"]],
+                ["if", ["prop", ["obj", b], "flag"], [["assign", "p", ["prop", ["obj", b], "peer"]]], None],
+                ["if", ["bin", "int", ">", ["prop", ["local", "p"], "intVal"], ["lit", "int", 0]],
+                 [["return", ["bin", "int", "+", ["prop", ["prop", ["local", "p"], "peer"], "intVal"], ["prop", ["prop", ["obj", a], "model"], "count"]]]], None],
+                ["return", ["prop", ["local", "p"], "intVal"]]]}
+            o["bindings"].append(_b("out2", blk))
+        if rng.chance(0.5):
+            o["bindings"].append(_b("font", ["prop", ["prop", ["obj", "w1"], "peer"], "text"], sub="family"))
+            o["bindings"].append(_b("font", ["bin", "int", "+", ["prop", ["prop", ["obj", "w2"], "peer"], "intVal"], ["lit", "int", 40]], sub="pointSize"))
+            pins.update([("w1", "peer"), ("w2", "peer")])
+    return _mk_doc(type_name, "QWidget", objs, pins=pins)
+
+
+def doc_names(rng, type_name="Doc"):
+    """identifier pairs whose capitalised concatenations coincide or look like numbered names"""
+    ids = rng.choice([["foo", "fooBar", "fooBarBaz"], ["foo", "fooBar"], ["w", "wOut", "wOut1"], ["foo", "fooBarBaz1", "fooBar"]])
+    objs = [_obj(i) for i in ids]
+    src = ["prop", ["obj", ids[0]], "intVal"]
+    k = 0
+    for o in objs:
+        props = {"foo": ["barBaz", "barBaz1", "baz"], "fooBar": ["baz", "barBaz"], "fooBarBaz": ["out1", "baz"], "fooBarBaz1": ["out1"],
+                 "w": ["out1", "out2"], "wOut": ["out1", "out2"], "wOut1": ["out1"]}[o["id"]]
+        for p in props:
+            if rng.chance(0.8):
+                k += 1
+                o["bindings"].append(_b(p, ["bin", "int", "+", src, ["lit", "int", k]]))
+        if rng.chance(0.5):
+            o["handlers"].append({"signal": "fired", "sigkey": "fired()", "on": "onFired", "params": [], "form": "expr", "argtypes": [],
+                                  "body": {"kind": "expr_stmt", "stmt": ["call", ["obj", ids[0]], "bump", [["lit", "int", k + 1]]]}})
+    return _mk_doc(type_name, "QWidget", objs)
+
+
+LITERAL_CLASSES = {
+    "ascii": ["plain text", "a+b=c", "semi;colon", "{braces}", "#hash", "tab\there"],
+    "quotes": ['say "hi"', "it's", 'back\\slash', 'mix "\\" end', "trailing\\"],
+    "whitespace": ["line\nbreak", "cr\rlf\n", "tab\tand\nnewline"],
+    "control": ["bell\x07", "nul\x00x", "esc\x1b[0m", "unit\x1fsep", "del\x7f", "\x01\x02"],
+    "nul-then-digit": ["a\x001", "\x007"],
+    "non-ascii": ["café", "über", "日本語", "emoji \U0001f600", "€ 5"],
+    "combining": ["é", "äö", "x⃗"],
+    "percent": ["100%", "%1 of %2", "%%"],
+    "trigraph-like": ["what??/", "??=", "a??)b"],
+}
+
+
+def doc_literals(rng, type_name="Doc"):
+    """string literals of every class, in dynamic bindings with trivially static dependencies"""
+    objs = [_obj("w1"), _obj("w2")]
+    classes = rng.sample(sorted(LITERAL_CLASSES), rng.randint(1, 3))
+    used = []
+    k = 0
+    for c in classes:
+        for lit in rng.sample(LITERAL_CLASSES[c], min(2, len(LITERAL_CLASSES[c]))):
+            k += 1
+            tgt = ["outText", "outText2", "midText"][k % 3]
+            o = objs[(k // 3) % 2]
+            if any(b["target"] == tgt for b in o["bindings"]):
+                continue
+            other = ["lit", "string", "k%d" % k]
+            form = rng.below(4)
+            if form == 2 and "\x00" in lit:
+                form = 0   # translate() takes const char *: an embedded NUL ends the text by Qt's API, not by qmluic's doing
+            if form == 0:
+                e = ["tern", ["prop", ["obj", "w1"], "flag"], ["lit", "string", lit], other]
+            elif form == 1:
+                e = ["bin", "string", "+", ["prop", ["obj", "w1"], "text"], ["lit", "string", lit]]
+            elif form == 2:
+                e = ["tern", ["prop", ["obj", "w1"], "flag"], ["tr", lit], other]
+            else:
+                e = ["sub", ["list", "string", [["lit", "string", lit], ["prop", ["obj", "w2"], "text"]]], ["lit", "int", 0]]
+            o["bindings"].append(_b(tgt, e, 1 if tgt == "midText" else 2))
+            used.append([c, lit])
+    doc = _mk_doc(type_name, "QWidget", objs)
+    doc["literal_classes"] = classes
+    return doc
+
+
+def doc_operators(rng, type_name="Doc"):
+    """operators printed verbatim for whatever operand types the checker admitted"""
+    objs = [_obj("w1"), _obj("w2")]
+    w2 = ["obj", "w2"]
+    pool = [
+        ("outReal", ["bin", "double", "%", ["prop", w2, "realVal"], ["lit", "double", 2.0]], "double-rem"),
+        ("outU", ["max", ["prop", w2, "uintVal"], ["lit", "int", 3]], "minmax-uint-literal"),
+        ("outU", ["min", ["prop", w2, "uintVal"], ["lit", "int", 3]], "minmax-uint-literal"),
+        ("outReal", ["max", ["prop", w2, "realVal"], ["lit", "double", 1.5]], "minmax-double"),
+        ("out1", ["bin", "int", "%", ["prop", w2, "intVal"], ["lit", "int", 3]], "int-rem"),
+        ("outU", ["bin", "uint", "%", ["prop", w2, "uintVal"], ["lit", "uint", 3]], "uint-rem"),
+        ("outFlag", ["bin", "bool", "^", ["prop", w2, "flag"], ["prop", ["obj", "w1"], "flag"]], "bool-xor"),
+        ("outOpts", ["bin", "opts", "&", ["un", "~", ["prop", w2, "opts"]], ["enum", "SimWidget.OptA"]], "flags-not-and"),
+        ("out2", ["cast", "int", ["prop", w2, "realVal"]], "double-to-int"),
+        ("outText", ["arg", ["arg", ["lit", "string", "%1/%2"], ["prop", w2, "intVal"]], ["prop", w2, "uintVal"]], "arg-chain"),
+        ("outReal", ["bin", "double", "/", ["prop", w2, "realVal"], ["lit", "double", 4.0]], "double-div"),
+        ("out1", ["un", "-", ["cast", "int", ["prop", w2, "flag"]]], "neg-bool-cast"),
+        ("outItems", ["tern", ["prop", w2, "flag"], ["list", "string", []], ["prop", w2, "items"]], "empty-list"),
+    ]
+    chosen = rng.sample(pool, rng.randint(2, 5))
+    tags = []
+    for tgt, e, tag in chosen:
+        if any(b["target"] == tgt for b in objs[0]["bindings"]):
+            continue
+        objs[0]["bindings"].append(_b(tgt, e))
+        tags.append(tag)
+    if rng.chance(0.5):
+        objs[1]["handlers"].append({"signal": "fired", "sigkey": "fired()", "on": "onFired", "params": [], "form": "block", "argtypes": [],
+                                    "body": {"kind": "block", "stmts": [["log", "info", [["max", ["prop", ["obj", "w1"], "intVal"], ["lit", "int", 2]]], "info"]]}})
+    doc = _mk_doc(type_name, "QWidget", objs)
+    doc["operator_tags"] = tags
+    return doc
